@@ -70,8 +70,8 @@ def judge(ctx, proto, job, r, want_n):
         ctx.extra["full_decode_not_clean"] = ctx.extra.get("full_decode_not_clean", 0) + 1
         return
     for pos, row in enumerate(r["ins"]):
+        ctx.count_many(key + ["ins", pos], len(row), nontrivial=full["n"] > 0)
         for ui, o in enumerate(row):
-            ctx.count(key + ["ins", pos, ui], nontrivial=full["n"] > 0)
             if o["st"] == "panic":
                 ctx.violation("%s decoder panicked with an undecodable set inserted: %s" % (proto, o["panic"]),
                               {"job": job, "position": pos, "inserted": job["inserts"][ui]})
@@ -84,8 +84,8 @@ def judge(ctx, proto, job, r, want_n):
         for ti, cuts in enumerate(trow):
             ui = job["trunc_inserts"][ti]
             whole = r["ins"][pos][ui]
+            ctx.count_many(key + ["ins_trunc", pos, ui], len(cuts), nontrivial=full["n"] > 0)
             for k, o in enumerate(cuts):
-                ctx.count(key + ["ins_trunc", pos, ui, k], nontrivial=full["n"] > 0)
                 if o["st"] == "panic":
                     ctx.violation("%s decoder panicked on a cut datagram: %s" % (proto, o["panic"]), {"job": job, "position": pos, "cut": k})
                 elif o["rd"] != whole["rd"][:len(o["rd"])]:
@@ -102,8 +102,8 @@ def judge(ctx, proto, job, r, want_n):
                           "announces that template, so undecodable there - changed the records of the other sets (%s, %d records "
                           "instead of %d)" % (proto, pi["set"][0] * 256 + pi["set"][1], pi["pos"], o["st"], o["n"], full["n"]),
                           {"job": job, "inserted": pi}, key="early-data")
+    ctx.count_many(key + ["trunc"], len(r["trunc"]), nontrivial=full["n"] > 0)
     for k, o in enumerate(r["trunc"]):
-        ctx.count(key + ["trunc", k], nontrivial=full["n"] > 0)
         if o["st"] == "panic":
             ctx.violation("%s decoder panicked on a datagram cut at octet %d: %s" % (proto, k, o["panic"]), {"job": job, "cut": k})
         elif o["rd"] != full["rd"][:len(o["rd"])]:
